@@ -5,5 +5,8 @@ CONSTANTS Design = "repaired"
           MaxAdv = 3
           MaxReads = 1
           MaxExt = 1
-INVARIANTS LinesWholeInOrder FileNameRight RotatesAfterCycle SuppressedOnlyWithin RetentionExact ReadHonest SurvivorsSurvive OldRemoved
+          MaxFaults = 0
+          MaxLoggers = 1
+          MaxSwitch = 0
+INVARIANTS LinesWholeInOrder FileNameRight RotatesAfterCycle SuppressedOnlyWithin RetentionExact ReadHonest NoFaultNoLoss SurvivorsSurvive OldRemoved Recovers
 CHECK_DEADLOCK FALSE
